@@ -96,8 +96,16 @@ def gen_net(rng, feature=None):
     fcs = [{'out': rng.randint(2, 6), 'bias': rng.random() < 0.6} for _ in range(rng.choice([1, 1, 2]))]
     bits = rng.choice([[8], [4], [2], [2, 4, 8], [2, 4, 8], [4, 8]])
     abits = rng.choice([[8], [4], [2], [2, 4, 8], [2, 4, 8], [2, 8]])
-    return {'cin': cin, 'h': h, 'w': w, 'convs': convs, 'fcs': fcs, 'wp': bits, 'ap': abits,
+    spec = {'cin': cin, 'h': h, 'w': w, 'convs': convs, 'fcs': fcs, 'wp': bits, 'ap': abits,
             'seed': rng.randrange(2 ** 31)}
+    if rng.random() < 0.4:
+        spec['bias_mode'] = rng.choice(['neg', 'neg', 'pos', 'both'])
+        if rng.random() < 0.6:
+            spec['ap'] = [8]               # the guard is active for |bias| > ~clip only with 8-bit outputs
+        for l in convs + fcs:
+            if rng.random() < 0.7:
+                l['bias'] = True
+    return spec
 
 
 def spec_features(spec):
@@ -122,6 +130,19 @@ def spec_features(spec):
     return f
 
 
+def big_bias(b, mode, g):
+    """one or two large-magnitude entries so that the 32-bit guard of _integer_approximation becomes active:
+    'neg' / 'pos' = the dominating entry has that sign (a smaller one of the other sign next to it), 'both' = random"""
+    import torch
+    if not mode:
+        return
+    sign = {'neg': -1.0, 'pos': 1.0}.get(mode) or (1.0 if float(torch.rand(1, generator=g)) < 0.5 else -1.0)
+    j = int(torch.randint(0, b.numel(), (1,), generator=g))
+    b[j] = sign * float(torch.empty(1).uniform_(5.0, 60.0, generator=g))
+    if b.numel() > 1:
+        b[(j + 1) % b.numel()] = -sign * float(torch.empty(1).uniform_(1.0, 4.5, generator=g))
+
+
 def build_net(spec):
     import torch
     import torch.nn as nn
@@ -143,12 +164,18 @@ def build_net(spec):
                         conv.weight[ch] = val
                     if conv.bias is not None:
                         conv.bias.copy_(torch.randn(conv.bias.shape, generator=g) * 0.3)
+                        big_bias(conv.bias, spec.get('bias_mode'), g)
                 setattr(self, 'c%d' % i, conv)
                 if l['bn']:
                     bn = nn.BatchNorm2d(l['cout'])
                     with torch.no_grad():
                         bn.running_mean.copy_(torch.randn(l['cout'], generator=g) * 0.2)
                         bn.running_var.copy_(torch.empty(l['cout']).uniform_(0.25, 4, generator=g))
+                        if spec.get('bias_mode'):          # small running variance: the folded bias becomes large
+                            bn.running_var.copy_(torch.empty(l['cout']).uniform_(0.002, 0.05, generator=g))
+                            sgn = {'neg': 1.0, 'pos': -1.0}.get(spec['bias_mode'], 0.0)
+                            bn.running_mean.copy_(torch.randn(l['cout'], generator=g) * 0.3 +
+                                                  sgn * torch.empty(l['cout']).uniform_(0.2, 1.5, generator=g))
                         bn.weight.copy_(torch.empty(l['cout']).uniform_(0.5, 1.5, generator=g))
                         bn.bias.copy_(torch.randn(l['cout'], generator=g) * 0.2)
                     setattr(self, 'bn%d' % i, bn)
@@ -167,6 +194,7 @@ def build_net(spec):
                     fc.weight.copy_(torch.randn(fc.weight.shape, generator=g) * 0.2)
                     if fc.bias is not None:
                         fc.bias.copy_(torch.randn(fc.bias.shape, generator=g) * 0.3)
+                        big_bias(fc.bias, spec.get('bias_mode'), g)
                 setattr(self, 'fc%d' % j, fc)
                 f = l['out']
 
@@ -212,6 +240,43 @@ def build_fq(spec):
     m(x)
     fq = m.export().eval()
     return fq, x
+
+
+POSTS = [[], ['fwd'], ['fwd', 'scale'], ['fwd', 'redraw'], ['load'], ['fwd', 'redraw', 'fwd'], ['scale'],
+         ['fwd', 'load'], ['fwd', 'scale', 'fwd'], []]
+
+
+def apply_post(fq, x, post, seed):
+    """what happens to the fake-quantized network between export() and integerize_arch: forwards, in-place weight /
+    bias edits (an optimizer step), re-drawn parameters, a state_dict loaded from a checkpoint.  The property is
+    demanded for the network as it is at integerize time."""
+    import torch
+    from plinio.methods.mps.quant.nn import QuantConv2d, QuantLinear
+    g = torch.Generator().manual_seed(seed + 17)
+    layers = [l for _, l in fq.named_modules() if isinstance(l, (QuantConv2d, QuantLinear))]
+    with torch.no_grad():
+        for op in post:
+            if op == 'fwd':
+                fq(x)
+            elif op == 'scale':
+                for l in layers:
+                    l.weight.mul_(2.0 ** float(torch.empty(1).uniform_(-2.5, 2.5, generator=g)))
+                    if l.bias is not None:
+                        l.bias.mul_(float(torch.empty(1).uniform_(0.3, 2.0, generator=g)))
+            elif op == 'redraw':
+                for l in layers:
+                    l.weight.copy_(torch.randn(l.weight.shape, generator=g) *
+                                   2.0 ** float(torch.empty(1).uniform_(-4, 1, generator=g)))
+                    if l.bias is not None:
+                        l.bias.copy_(torch.randn(l.bias.shape, generator=g) * 0.4)
+            elif op == 'load':
+                sd = {}
+                for k, v in fq.state_dict().items():
+                    if k.endswith('.weight') and v.dim() >= 2:
+                        sd[k] = torch.randn(v.shape, generator=g) * 2.0 ** float(torch.empty(1).uniform_(-4, 1, generator=g))
+                    elif k.endswith('.bias'):
+                        sd[k] = torch.randn(v.shape, generator=g) * 0.4
+                fq.load_state_dict(sd, strict=False)
 
 
 # ----------------------------------------------------------------------------- one case on the real code
@@ -275,6 +340,7 @@ def _run_case(case, res):
     spec, bname, kw = case['spec'], case['backend'], case['kwargs']
     backend = Backend[bname]
     fq, x = build_fq(spec)
+    apply_post(fq, x, case.get('post', []), spec['seed'])
     names = [n for n, l in fq.named_modules() if isinstance(l, (QuantConv2d, QuantLinear))]
     bk = bname.lower()
 
@@ -366,30 +432,58 @@ def check_layer(case, res, viol, fq, im, n, fl, L, cls, feat, io_n, sb, sp, is_l
     # ------------------------------------------------------------------ stored integers: real values
     wq = copy.deepcopy(fl.w_quantizer)
     wq.dequantize = False
-    W = wq(fl.weight.detach())                              # integer weights as the constructor computed them
-    s_w, s_x, s_y = L.s_w.detach().reshape(-1), L.s_x.detach().reshape(()), L.s_y.detach().reshape(())
+    W = wq(fl.weight.detach())                              # integer weights of the network as it is NOW
+    # reference scales: those of the weights / clip values at integerize time (a quantizer just called on fl.weight),
+    # never the state an earlier call left behind; the integer layer's stored s_w is compared against them
+    s_w = wq.scale.detach().reshape(-1).clone()
+    s_x = fl.in_quantizer.scale.detach().reshape(()).clone()
+    s_y = torch.tensor(1.) if last else fl.out_quantizer.scale.detach().reshape(()).clone()
+    s_w_L = L.s_w.detach().reshape(-1)
+    stale = tuple(s_w_L.shape) != tuple(s_w.shape) or not bool(torch.equal(s_w_L, s_w))
     if fl.bias is not None:
         bq = copy.deepcopy(fl.b_quantizer)
         bq.dequantize = False
-        nb_t = bq(fl.bias.detach(), s_x, s_w)
+        nb_t = bq(fl.bias.detach(), L.s_x.detach().reshape(()), s_w_L)     # what the integer layer computed
+        nbq_t = bq(fl.bias.detach(), s_x, s_w)                             # integer bias of the fake-quantized layer
     else:
-        nb_t = torch.zeros(cout)
+        nb_t = nbq_t = torch.zeros(cout)
     nb = [int(v) if math.isfinite(v) and v == int(v) else v for v in nb_t.tolist()]
+    nbq = [int(v) if math.isfinite(v) and v == int(v) else v for v in nbq_t.tolist()]
     S = [int(v) for v in L.scale.reshape(-1).tolist()]
     sh = int(L.shift.reshape(-1)[0])
-    target = (L.s_w * L.s_x / L.s_y).detach().reshape(-1).tolist()     # the expression of _integer_approximation
+    target = (s_w * s_x / s_y).detach().reshape(-1).tolist()     # the expression of _integer_approximation, fresh scales
+    stale_key = 'C14:%s:stale-weight-scale' % bk
     Wi = L.weight.detach()
 
     def bad(key, what):
         viol('%s:%s' % (key0, key), '%s (layer %s, in/w/out bits %s/%s/%s)' % (what, n, pin, pw, pout), n)
 
+    # the code evaluates its 32-bit guard in float32: a candidate product within 128 of +-2^31 is rounded onto it
+    # (observation, not demanded); layers with a candidate in a 2^12-wide window are excluded from the two clauses
+    # that depend on the exact guard
+    ubs = 2 ** (sb - 1) - 1
+    window = False
+    guard = set()
+    if all(isinstance(v, int) for v in nb):
+        for c in range(min(cout, len(target))):
+            tq = F(target[c])
+            for k in range(sp):
+                sc = min(max(math.ceil(tq * 2 ** k), 1), max(ubs, 1))
+                if abs(abs(nb[c] * sc) - 2 ** 31) <= 2 ** 12:
+                    window = True
+                if nb[c] * sc > 2 ** 31 - 1:
+                    guard.add('positive')
+                elif nb[c] * sc < -2 ** 31:
+                    guard.add('negative')
+    for gs in guard:
+        cnt(res, '32bit-guard-active:%s:%s:%s' % (bk, 'conv' if is_conv else 'linear', gs))
     # ------------------------------------------------------------------ oracle: declared ranges
     ok_int = True
     if not bool(torch.all(Wi == Wi.round())) or float(Wi.min()) < -2 ** (pw - 1) or float(Wi.max()) > 2 ** (pw - 1) - 1:
         bad('weight-range', 'stored weights are not integers of the signed %d-bit range: min %r max %r'
             % (pw, float(Wi.min()), float(Wi.max())))
         ok_int = False
-    if not all(isinstance(v, int) for v in nb):
+    if not all(isinstance(v, int) for v in nb + nbq):
         bad('bias-integer', 'integer bias is not integer-valued / finite: %r' % nb[:4])
         return
     if min(S) < 1 or max(S) > 2 ** (sb - 1):
@@ -404,7 +498,12 @@ def check_layer(case, res, viol, fq, im, n, fl, L, cls, feat, io_n, sb, sp, is_l
         ab = L.add_bias.detach().reshape(-1).tolist()
         lim = [(abs(v) if v >= 0 else abs(v) - 1) for v in ab]
         if (not last) and (not all(math.isfinite(v) and v == int(v) for v in ab) or max(lim) > 2 ** 31 - 1):
-            bad('bias-32bit', 'scaled bias is not a 32-bit integer: %r' % ab[:4])
+            if window:
+                cnt(res, 'float32-guard-window-layers')
+            else:
+                viol('C14:%s:scaled-bias-out-of-int32' % bk,
+                     '%s layer %s stores scaled bias %r (int_bias %r x scale %r, shift %d): outside [-2^31, 2^31-1]'
+                     % (cls, n, [v for v, l in zip(ab, lim) if l > 2 ** 31 - 1 or v != int(v)][:3], nb[:6], S[:6], sh), n)
     if not bool(torch.all(y_int == y_int.round())) and not (last and bname == 'MAUPITI'):
         bad('activation-integer', 'layer output is not integer-valued')
         return
@@ -463,6 +562,25 @@ def check_layer(case, res, viol, fq, im, n, fl, L, cls, feat, io_n, sb, sp, is_l
     if len(sw) == 1 and cout > 1:
         sw = sw * cout
     off_out = 0 if (last or bname == 'MATCH') else 2 ** (pout - 1)
+    if stale:
+        cnt(res, 'layers-with-stale-stored-s_w')
+
+    # ------------------------------------------------------------------ oracle: the stored scale approximates the TRUE
+    # target s_w*s_x/s_y ("the bound implied by its own scale/shift approximation", theorem scale_error_lt):
+    # 0 <= scale/2^shift - target < 2^-shift wherever the search is not clamped
+    if not last and not window:
+        for c in range(cout):
+            T = sw[c] * sx / sy
+            if T <= 0 or T * 2 ** sh * (1 + Fr(1, 2 ** 21)) > ubs:
+                continue
+            e = Fr(S[c], 2 ** sh) - T
+            if e < -T / 2 ** 21 or e >= Fr(1, 2 ** sh) + T / 2 ** 21:
+                viol(stale_key if stale else '%s:scale-not-approximating-target' % key0,
+                     'layer %s channel %d: scale/2^shift = %d/2^%d = %.6g does not approximate s_w*s_x/s_y = %.6g of the '
+                     'weights as they are at integerize time within 2^-shift (stored s_w %.6g, scale of the current '
+                     'weights %.6g)' % (n, c, S[c], sh, S[c] / 2 ** sh, float(T),
+                                        float(s_w_L.reshape(-1)[min(c, s_w_L.numel() - 1)]), float(sw[c])), n)
+                break
 
     # ------------------------------------------------------------------ oracle: per-layer statement
     if not last:
@@ -474,13 +592,13 @@ def check_layer(case, res, viol, fq, im, n, fl, L, cls, feat, io_n, sb, sp, is_l
             a_coef = Fr(S[c], 2 ** sh)
             for j, (a_, ab_, yi, yf) in enumerate(zip(accL[c], absL[c], yiL[c], yfL[c])):
                 a_, ab_ = int(a_), int(ab_)
-                av = (a_ + nb[c]) * a_coef
-                bv = (a_ * sw[c] * gx + nb[c] * sx * sw[c]) / gy
+                av = (a_ + nbq[c]) * a_coef        # theorem layer_vs_fq: the same integer bias on both sides
+                bv = (a_ * sw[c] * gx + nbq[c] * sx * sw[c]) / gy
                 # the theorem holds for any two pre-rounding values with the same clipped floors: clamping both
                 # to [-1, M+1] changes neither output and can only shrink |a - b|
                 gap = abs(min(max(av, -1), M + 1) - min(max(bv, -1), M + 1))
-                slack = (ab_ + abs(nb[c])) * a_coef / 2 ** 21 + \
-                    (nterms + 8) * (ab_ * sw[c] * gx + abs(nb[c]) * sx * sw[c]) / gy / 2 ** 23
+                slack = (ab_ + abs(nbq[c])) * a_coef / 2 ** 21 + \
+                    (nterms + 8) * (ab_ * sw[c] * gx + abs(nbq[c]) * sx * sw[c]) / gy / 2 ** 23
                 if bname == 'MAUPITI':      # offset inputs and zero-point: larger intermediate magnitudes
                     slack += (2 ** (pin - 1) * sum(abs(int(v)) for v in W[c].reshape(-1).tolist()) * 2 + 2 ** (pout - 1) * 2 ** sh / max(S[c], 1)) \
                         * a_coef / 2 ** 21
@@ -493,7 +611,9 @@ def check_layer(case, res, viol, fq, im, n, fl, L, cls, feat, io_n, sb, sp, is_l
         cnt(res, 'outputs-checked', sum(len(v) for v in yiL))
         if worst is not None:
             _, c, j, yi, yf, bound, gap = worst
-            if bname == 'MAUPITI' and pin != pout:
+            if stale:
+                k = stale_key
+            elif bname == 'MAUPITI' and pin != pout:
                 k = 'C14:maupiti:p_in!=p_out'
             else:
                 k = '%s:output-vs-fq:%s' % (key0, feat)
@@ -508,15 +628,15 @@ def check_layer(case, res, viol, fq, im, n, fl, L, cls, feat, io_n, sb, sp, is_l
             for j, (a_, ab_, yi, yf) in enumerate(zip(accL[c], absL[c], yiL[c], yfL[c])):
                 a_, ab_ = int(a_), int(ab_)
                 logit = F(yf)
-                fl_slack = (nterms + 8) * (ab_ * sw[c] * gx + abs(nb[c]) * sx * sw[c]) / 2 ** 23
+                fl_slack = (nterms + 8) * (ab_ * sw[c] * gx + abs(nbq[c]) * sx * sw[c]) / 2 ** 23
                 stab = abs(a_) * sw[c] * abs(gx - sx)
                 if bname == 'MATCH' or (is_conv and bname == 'MAUPITI'):
                     got = F(yi) * sx * sw[c]
                     tol = stab + fl_slack
                 else:
                     got = F(yi)
-                    tol = abs(a_ + nb[c]) * abs(a_coef - sx * sw[c]) + stab + fl_slack + \
-                        (ab_ + abs(nb[c]) + 2 ** pin * wabs) * a_coef / 2 ** 20
+                    tol = abs(a_ + nbq[c]) * abs(a_coef - sx * sw[c]) + stab + fl_slack + \
+                        (ab_ + abs(nbq[c]) + 2 ** pin * wabs) * a_coef / 2 ** 20
                 err = abs(got - logit)
                 if err > tol and (worst is None or err / max(tol, Fr(1, 10 ** 30)) > worst[0]):
                     worst = (err / max(tol, Fr(1, 10 ** 30)), c, j, float(got), float(logit), float(tol))
@@ -524,7 +644,9 @@ def check_layer(case, res, viol, fq, im, n, fl, L, cls, feat, io_n, sb, sp, is_l
         if worst is not None:
             _, c, j, got, logit, tol = worst
             k = '%s:logits:%s' % (key0, feat)
-            if bname == 'MAUPITI' and is_conv:
+            if stale:
+                k = stale_key
+            elif bname == 'MAUPITI' and is_conv:
                 k = 'C14:maupiti:last-layer-conv'
             viol(k, 'last layer %s: integer network gives logit %.6g, fake-quantized %.6g (channel %d element %d), '
                  'allowed %.3g' % (n, got, logit, c, j, tol), n)
@@ -580,8 +702,11 @@ def check_layer(case, res, viol, fq, im, n, fl, L, cls, feat, io_n, sb, sp, is_l
         add('b sa=%s sw=%s b=%s' % (rs(sx), rl(sw), rl(F(b) for b in bl)), kind='ints', real=nb, skip=skip,
             what='integer bias')
     # scale / shift selection
-    add('ia sb=%d sp=%d t=%s b=%s' % (sb, sp, rl(F(t) for t in target), rl(nb)), kind='ia', real=(S, sh),
-        what='scale / shift of _integer_approximation')
+    if window:
+        cnt(res, 'float32-guard-window-layers')
+    else:
+        add('ia sb=%d sp=%d t=%s b=%s' % (sb, sp, rl(F(t) for t in target), rl(nb)), kind='ia', real=(S, sh),
+            what='scale / shift of _integer_approximation (exact 32-bit guard, scales of the current weights)')
     # scaled bias as stored: fl32(n_b * scale)
     if not last:
         add('sb s=%s nb=%s' % (rl(S), rl(nb)), kind='sb', real=L.add_bias.detach().reshape(-1).tolist(),
@@ -862,8 +987,9 @@ def gen_cases(rng, quick, mult=1):
     feats = ['dil0', 'dil1', None, None, 'sym', None]
     for i in range(n):
         spec = gen_net(rng, feats[i % len(feats)])
-        cases.append({'spec': spec, 'backend': 'MATCH', 'kwargs': rng.choice(MATCH_OPTS) if i % 3 else {}})
-        cases.append({'spec': spec, 'backend': 'MAUPITI', 'kwargs': {}})
+        post = POSTS[rng.randrange(len(POSTS))]
+        cases.append({'spec': spec, 'backend': 'MATCH', 'kwargs': rng.choice(MATCH_OPTS) if i % 3 else {}, 'post': post})
+        cases.append({'spec': spec, 'backend': 'MAUPITI', 'kwargs': {}, 'post': post})
     # asymmetric padding first layer, both backends (MAUPITI padded all four sides with padding[0] before d66c6a7)
     for i in range(3 * mult):
         spec = gen_net(rng, 'asym')
@@ -900,7 +1026,11 @@ def run(chk):
                 'on axis 0, dilated (1,k) on axis 1, asymmetric padding} with bias on/off, BatchNorm folded by MPS, optional '
                 'MaxPool, flatten, 1-2 Linear (bias on/off); weight/activation precisions drawn from {2,4,8} per layer '
                 '(seeded one-hot alpha), random PACT clip values; MATCH with 5 scale_bit/shift_pos options, MAUPITI; random '
-                'inputs in [0,1); every integer layer compared on the activations the integer network itself produced. '
+                'inputs in [0,1); every integer layer compared on the activations the integer network itself produced; 40% of the '
+                'nets carry large-magnitude (also BN-folded, small running variance) biases with a dominating negative / '
+                'positive entry so that the 32-bit guard is active; every net is integerized after a history drawn from '
+                '{none, forward, in-place scaling, re-drawn parameters, load_state_dict, with / without a final forward} and '
+                'the property is demanded for the network as it is at integerize time (reference scales recomputed). '
                 'functions alone: binary_search on/off the grid, _integer_approximation for all four layer classes (tiny, '
                 'huge, dyadic targets, overflowing biases), _pad_dilation_in_weight. distinct = distinct (net, backend, '
                 'options); non-trivial = every case (each has at least one requantising layer and a last layer)')
@@ -948,12 +1078,17 @@ def run(chk):
 
 def absorb(chk, case, res):
     feats = sorted(spec_features(case['spec']))
-    chk.count((case['backend'], tuple(sorted(case['kwargs'].items())), case['spec']['seed']), nontrivial='error' not in res,
-              sample={'backend': case['backend'], 'kwargs': case['kwargs'], 'features': feats,
+    chk.count((case['backend'], tuple(sorted(case['kwargs'].items())), case['spec']['seed'], tuple(case.get('post', []))), nontrivial='error' not in res,
+              sample={'backend': case['backend'], 'kwargs': case['kwargs'], 'features': feats, 'post': case.get('post', []),
                       'convs': len(case['spec']['convs']), 'fcs': len(case['spec']['fcs'])},
               bucket='%s:%s' % (case['backend'], ','.join('%s=%s' % kv for kv in sorted(case['kwargs'].items())) or 'default'))
     for k, v in res['counts'].items():
         chk.hist[k] = chk.hist.get(k, 0) + v
+    hk = 'history-before-integerize:' + ('>'.join(case.get('post', [])) or 'none')
+    chk.hist[hk] = chk.hist.get(hk, 0) + 1
+    if case['spec'].get('bias_mode'):
+        chk.hist['net-feature:large-bias-' + case['spec']['bias_mode']] = \
+            chk.hist.get('net-feature:large-bias-' + case['spec']['bias_mode'], 0) + 1
     for f in feats:
         chk.hist['net-feature:' + f] = chk.hist.get('net-feature:' + f, 0) + 1
     for o in res['obs']:
@@ -964,7 +1099,7 @@ def absorb(chk, case, res):
 
 def replay(data):
     case = data['case']
-    res = run_case({k: case[k] for k in ('spec', 'backend', 'kwargs')})
+    res = run_case({k: case[k] for k in ('spec', 'backend', 'kwargs', 'post') if k in case})
     if 'error' in res:
         print('case could not be run:', res['error'])
         return 1
